@@ -82,7 +82,9 @@ class StmtMixin:
         elif isinstance(t, ast.Subscript):
             base = self.eval(t.value)
             if isinstance(t.slice, ast.Slice):
-                raise Unsupported('slice assignment')
+                lo = self.eval(t.slice.lower) if t.slice.lower is not None else None
+                hi = self.eval(t.slice.upper) if t.slice.upper is not None else None
+                return self.setslice(base, lo, hi, v, t)
             self.setitem(base, self.eval(t.slice), v, t)
         elif isinstance(t, (ast.Tuple, ast.List)):
             vals = list(self.iter_values(v, t))
